@@ -3,13 +3,13 @@ CONSTANTS
   Names = {"a", "b"}
   Vals = {"1"}
   AddParents = {"", "a"}
-  TreeKeys = {"a.b"}
+  TreeKeys = {"a.b.a"}
   SetKeys = {"a", "a.b"}
   Keys = {"a", "b", "a.a", "a.b", "b.a", "a.b.a"}
   Filters = {"*", "a", "a.*", "*.b", "a*.b*"}
   DelParents = {"", "a"}
   CopySrc = {"a"}
-  CopyDst = {""}
+  CopyDst = {"", "b"}
   AttrNodes = {"a"}
   AttrKeys = {"k"}
   MaxNodes = 9
